@@ -69,15 +69,25 @@ def run(ctx, build):
                 src_grp = main.parent
                 labels = lay.pos_labels + lay.spec_labels
                 sizes = lay.pos_sizes + lay.spec_sizes
-                for si in range(3 if ctx.quick() else 5):
+                n_rand = 3 if ctx.quick() else 5
+                # designed selections (independent of the seed): unevenly spaced index lists whose span is a multiple of
+                # (count - 1), alone on one dimension of size >= 5
+                designed = []
+                for i, lab in enumerate(labels):
+                    if sizes[i] >= 5:
+                        designed += [{lab: [0, 1, 4]}, {lab: [0, 3, 4]}]
+                for si in range(n_rand + len(designed)):
                     sort_dims = rng.random() < 0.2
                     with common.quiet():
                         u = usid.USIDataset(main, sort_dims=sort_dims)
                     hist['sort_dims_wrapper'] += int(sort_dims)
                     sd, chosen, kinds = {}, {}, []
+                    fixed = designed[si - n_rand] if si >= n_rand else None
                     for i, lab in enumerate(labels):
                         s = c07.gen_sel(rng, sizes[i])
-                        if sizes[i] >= 5 and rng.random() < 0.5:
+                        if fixed is not None:
+                            s = ('list', fixed[lab], list) if lab in fixed else ('absent',)
+                        if fixed is None and sizes[i] >= 5 and rng.random() < 0.5:
                             vals = sorted(rng.sample(range(sizes[i]), rng.randint(3, 4)))
                             s = ('list', vals, rng.choice([list, tuple, np.array]))
                         kinds.append(s[0])
